@@ -572,6 +572,26 @@ fn sched32(rng: &mut Rng, cycles: u32) -> Vec<u32> {
 }
 
 fn gen_cfg(rng: &mut Rng) -> Cfg {
+    if rng.chance(1, 4) {
+        // sparse configuration: everything at its default except one or two fields
+        let mut c = Cfg::default();
+        for _ in 0..1 + rng.below(2) {
+            match rng.below(11) {
+                0 => c.fc = 1 + rng.below(255) as u8,
+                1 => c.fd = 1 + rng.below(255) as u8,
+                2 => c.fe = 1 + rng.below(255) as u8,
+                3 => c.ff = 1 + rng.below(255) as u8,
+                4 => c.di1 = 1 + rng.below(255) as u8,
+                5 => c.temp = (1 + rng.below(500)) as f32 / 100.0,
+                6 => c.ai1 = (1 + rng.below(500)) as f32 / 100.0,
+                7 => c.ai2 = (1 + rng.below(500)) as f32 / 100.0,
+                8 => c.j1 = true,
+                9 => c.j2 = true,
+                _ => c.uio[rng.usize(3)] = true,
+            }
+        }
+        return c;
+    }
     let volt = |rng: &mut Rng| -> f32 {
         match rng.below(4) {
             0 => 0.0,
@@ -648,6 +668,12 @@ impl Check for C12 {
                 big.push('\n');
             }
             big
+        } else {
+            program
+        };
+        let program = if !broken && rng.chance(1, 8) {
+            // the board status and the input port mirrored into the outputs
+            "#! mrasm\n    LD R0, (0xF1)\n    ST (0xFE), R0\n    LD R1, (0xF0)\n    LD R2, (0xF3)\n    OR R1, R2\n    ST (0xFF), R1\n    STOP\n".to_string()
         } else {
             program
         };
